@@ -44,21 +44,23 @@ results = meta.get("checks_run", {})
 if MODE == "--confirm-only":
     json.dump(meta, open(os.path.join(dst, "meta.json"), "w"), indent=1)
     sys.exit(0)
+REPO = os.environ.get("EVAL_REPO", "/repo")      # a scratch worktree of /repo (checks run with LW_REPO) when several evaluations run at once
 if meta["confirmed"]:
-    assert sh("git status --porcelain", cwd="/repo")[1].strip() == "", "/repo not clean"
-    rc, out = sh("git apply %s/patch.diff" % dst, cwd="/repo")
+    assert sh("git status --porcelain lightworks", cwd=REPO)[1].strip() == "", REPO + " not clean"
+    rc, out = sh("git apply %s/patch.diff" % dst, cwd=REPO)
     assert rc == 0, out
     try:
         for chk in [pid] + extra:
             t0 = time.time()
-            rc, out = sh("./check %s --tier quick" % chk, cwd=VERIF)
+            rc, out = sh("./check %s --tier quick" % chk, cwd=VERIF, env_=dict(os.environ, LW_REPO=REPO))
             viol = [l for l in out.split("\n") if l.startswith("VIOLATION") or l.strip().startswith("clause=")][:6]
             results[chk] = {"exit": rc, "wall_s": round(time.time() - t0, 1), "lines": viol, "tail": out.strip().split("\n")[-1][:300]}
             print(chk, "exit", rc, "%.0fs" % (time.time() - t0), viol[:2])
     finally:
-        sh("git checkout -- .", cwd="/repo")
-        sh("rm -rf %s/replays" % VERIF)
-    assert sh("git status --porcelain", cwd="/repo")[1].strip() == ""
+        sh("git checkout -- lightworks", cwd=REPO)
+        if REPO == "/repo":
+            sh("rm -rf %s/replays" % VERIF)
+    assert sh("git status --porcelain lightworks", cwd=REPO)[1].strip() == ""
 meta["checks_run"] = results
 meta["detected_by"] = [c for c, r in results.items() if r["exit"] == 1]
 meta["what_was_run"] = "demo.py clean/patched in the scratch worktree; repository suite with the patch (-n 8); git -C /repo apply; ./check <id> --tier quick; git -C /repo checkout -- ."
